@@ -5,13 +5,13 @@ use asca::verif as av;
 use serde_json::{json, Value};
 
 #[derive(Clone, Debug)]
-enum RIn { Ipa(SegBits), IpaLong(SegBits), IpaStress(SegBits), V, VStress, Nasal, Seq(SegBits, SegBits), Bound }
+enum RIn { Ipa(SegBits), IpaLong(SegBits), IpaStress(SegBits), V, VStress, Nasal, Seq(SegBits, SegBits), Bound, IpaSec(SegBits), VNoSec, IpaPrimOnly(SegBits) }
 #[derive(Clone, Debug)]
 enum ROut { Str(&'static str, &'static str), Plus(&'static str, &'static str), Drop }
 
 fn is_v(b: SegBits) -> bool { model::feat(b, 0) == Some(false) && model::feat(b, 1) == Some(true) && model::feat(b, 2) == Some(true) }
 
-fn rin_text(i: &RIn) -> &'static str { match i { RIn::Ipa(_) => "a", RIn::IpaLong(_) => "a:[+long]", RIn::IpaStress(_) => "a:[+stress]", RIn::V => "V", RIn::VStress => "V:[+stress]", RIn::Nasal => "[+nasal]", RIn::Seq(..) => "ta", RIn::Bound => "$" } }
+fn rin_text(i: &RIn) -> &'static str { match i { RIn::Ipa(_) => "a", RIn::IpaLong(_) => "a:[+long]", RIn::IpaStress(_) => "a:[+stress]", RIn::V => "V", RIn::VStress => "V:[+stress]", RIn::Nasal => "[+nasal]", RIn::Seq(..) => "ta", RIn::Bound => "$", RIn::IpaSec(_) => "a:[+secstress]", RIn::VNoSec => "V:[-sec.stress]", RIn::IpaPrimOnly(_) => "a:[+stress, -secstress]" } }
 fn rout_text(o: &ROut) -> String { match o { ROut::Str(t, _) => t.to_string(), ROut::Plus(t, _) => format!("+{}", t), ROut::Drop => "*".into() } }
 
 /// reference romaniser (doc.md §Romanisation, §Plus Operator): per syllable, at each logical
@@ -38,6 +38,9 @@ fn romanise(w: &CW, aliases: &[(RIn, ROut)]) -> Option<String> {
                     RIn::Nasal => if model::feat(segs[j], 6) == Some(true) { Some((1, false)) } else { None },
                     RIn::Seq(a, b) => if segs[j] == *a && j + 1 < segs.len() && segs[j + 1] == *b { Some((2, false)) } else { None },
                     RIn::Bound => None,
+                    RIn::IpaSec(a) => if segs[j] == *a && sy.stress == 2 { Some((1, false)) } else { None },
+                    RIn::VNoSec => if is_v(segs[j]) && sy.stress != 2 { Some((1, false)) } else { None },
+                    RIn::IpaPrimOnly(a) => if segs[j] == *a && sy.stress == 1 { Some((1, false)) } else { None },
                 };
                 if let Some((k, with_len)) = m {
                     match out {
@@ -107,7 +110,8 @@ fn rom_pool() -> Vec<(RIn, Vec<ROut>)> {
     let (a, t) = (seg("a"), seg("t"));
     let strs = vec![ROut::Str("Q", "Q"), ROut::Str("QQ", "QQ"), ROut::Drop, ROut::Str("\\u{00FE}", "þ"), ROut::Str("@{acute}", "\u{301}")];
     let mut with_plus = strs.clone(); with_plus.push(ROut::Plus("q", "q")); with_plus.push(ROut::Plus("@{macron}", "\u{304}"));
-    vec![(RIn::Ipa(a), with_plus.clone()), (RIn::IpaLong(a), with_plus.clone()), (RIn::IpaStress(a), strs.clone()), (RIn::V, with_plus.clone()), (RIn::VStress, with_plus.clone()), (RIn::Nasal, with_plus.clone()), (RIn::Seq(t, a), strs.clone()), (RIn::Bound, vec![ROut::Drop, ROut::Str("Q", "Q"), ROut::Str("\\-", "-")])]
+    vec![(RIn::Ipa(a), with_plus.clone()), (RIn::IpaLong(a), with_plus.clone()), (RIn::IpaStress(a), strs.clone()), (RIn::V, with_plus.clone()), (RIn::VStress, with_plus.clone()), (RIn::Nasal, with_plus.clone()), (RIn::Seq(t, a), strs.clone()), (RIn::Bound, vec![ROut::Drop, ROut::Str("Q", "Q"), ROut::Str("\\-", "-")]),
+         (RIn::IpaSec(a), strs.clone()), (RIn::VNoSec, with_plus.clone()), (RIn::IpaPrimOnly(a), strs.clone())]
 }
 
 // ---- deromanisers: (alias line, encoder of the canonical text)
@@ -117,15 +121,15 @@ fn encode(kind: usize, w: &CW) -> Option<String> {
         0 => Some(text.replace('a', "Q")),                  // Q > a
         1 => if text.contains("aː") { Some(text.replace("aː", "QQ")) } else { None },          // QQ > a:[+long]
         2 => Some(text.replace("ta", "Z")),                 // Z > ta
-        3 => {                                               // X > a:[+stress]: first /a/ of every primary-stressed syllable typed as X, stress mark as plain boundary
+        3 | 6 => {                                           // X > a:[+stress] (S > a:[+secstress]): first /a/ of every primary- (secondary-) stressed syllable typed as X (S), stress mark as plain boundary
             let mut out = String::new();
             for (i, sy) in w.iter().enumerate() {
                 let a = seg("a");
-                let has = sy.stress == 1 && sy.segs.contains(&a);
+                let has = sy.stress == (if kind == 3 { 1 } else { 2 }) && sy.segs.contains(&a);
                 let mut one: CW = vec![sy.clone()];
                 if has { one[0].stress = 0; }
                 let mut t = av::render_word(&word_of(&one), None);
-                if has { t = t.replacen('a', "X", 1); }
+                if has { t = t.replacen('a', if kind == 3 { "X" } else { "S" }, 1); }
                 if i > 0 && !t.starts_with(['ˈ', 'ˌ']) { out.push('.'); }
                 out += &t;
             }
@@ -137,7 +141,7 @@ fn encode(kind: usize, w: &CW) -> Option<String> {
         _ => None,
     }
 }
-const DEROM: [&str; 6] = ["Q > a", "QQ > a:[+long]", "Z > ta", "X > a:[+stress]", "Y > ta:[+long]n", "W > a:[+long]t"];
+const DEROM: [&str; 7] = ["Q > a", "QQ > a:[+long]", "Z > ta", "X > a:[+stress]", "Y > ta:[+long]n", "W > a:[+long]t", "S > a:[+secstress]"];
 
 fn deromaniser_case(kind: usize, ws: &[CW], a: &mut Acc) {
     let into = vec![DEROM[kind].to_string()];
@@ -145,7 +149,7 @@ fn deromaniser_case(kind: usize, ws: &[CW], a: &mut Acc) {
         for w in ws {
             let Some(enc) = encode(kind, w) else { continue };
             let text = av::render_word(&word_of(w), None);
-            if enc == text && kind != 3 { continue; }
+            if enc == text && kind != 3 && kind != 6 { continue; }
             a.evals += 1;
             let plain = guarded(budget_for(14, 60) * 2, || asca::run(&[group(rl)], &[text.clone()], &[], &[]).map_err(|e| format!("{:?}", e)));
             let aliased = guarded(budget_for(14, 60) * 2, || asca::run(&[group(rl)], &[enc.clone()], &into, &[]).map_err(|e| format!("{:?}", e)));
@@ -161,7 +165,7 @@ fn deromaniser_case(kind: usize, ws: &[CW], a: &mut Acc) {
 pub fn run() -> i32 {
     let mut r = Report::new("C15");
     let thorough = r.thorough();
-    r.rule = "romaniser sets of one line (thorough: every ordered pair of lines, and the comma-list form of each pair) over inputs {a, a:[+long], a:[+stress], V, V:[+stress], [+nasal], ta, $} x replacements {Q, QQ, *, a unicode escape, a named escape, +q, +@{macron}}; x 5 rule lists x every word of W(I5,3) with and without stress (long segments included): the printed word must equal the default rendering of the structural result rewritten by a reference romaniser, both through run() and through the renderer alone; deromanisers {Q > a, QQ > a:[+long], Z > ta, X > a:[+stress], Y > ta:[+long]n, W > a:[+long]t} on W(I5,4): run(R, encode(w), into=D) == run(R, w). Non-trivial = the alias rewrote the rendering.".into();
+    r.rule = "romaniser sets of one line (thorough: every ordered pair of lines, and the comma-list form of each pair) over inputs {a, a:[+long], a:[+stress], a:[+secstress], a:[+stress, -secstress], V, V:[+stress], V:[-sec.stress], [+nasal], ta, $} x replacements {Q, QQ, *, a unicode escape, a named escape, +q, +@{macron}}; x 5 rule lists x every word of W(I5,3) with and without stress (long segments included): the printed word must equal the default rendering of the structural result rewritten by a reference romaniser, both through run() and through the renderer alone; deromanisers {Q > a, QQ > a:[+long], Z > ta, X > a:[+stress], S > a:[+secstress], Y > ta:[+long]n, W > a:[+long]t} on W(I5,4): run(R, encode(w), into=D) == run(R, w). Non-trivial = the alias rewrote the rendering.".into();
     r.assumptions.push("`+` only on segments that are base phones (inventory p t a i n); no tone-matching aliases: the manual does not say what happens to the tones of unmatched syllables".into());
     let ws = words(3, true);
     let pool = rom_pool();
